@@ -48,6 +48,12 @@ sim_claim("C19", "twin worlds from one tape differing only in URN secrets (non-i
   "Two executions of the same simulated deployment - same tape, schedule, faults, clock/UUID/random streams - differ only in the path and display of every URN; under RedactionPolicyURNs the outcome, the path taken, every event minus fields that are URNs by contract, a full recursive walk of Session.CurrentContext() (text, format and JSON renderings, lazies forced) and ~70 templates over it must be identical; nameless contacts render as their id; URN conditions (any syntax) are rejected by ParseQuery. Every 4th pair runs without the policy and must differ (sensitivity).",
   "Fields that carry URNs by contract are projected away by an explicit list; transfer_airtime is excluded (its service errors name the number by contract); presence tests on URNs (empty value) are allowed by design.")
 
+CLAIMED["C16"] = ("fault_enumeration",
+  "fault injection on stored definition bytes served by the simulated asset store: exhaustive single storage faults per definition (truncation at every offset; per JSON path deletion, 11 wrong-type replacements, duplicate member) plus seeded multi-fault combinations and bit flips, consumed through every entry point a host uses, under recover + watchdog",
+  "Decides the rejection clause of C16 only: every definition in the repository's testdata/specdata (142 distinct, spec 13.0-13.6 and legacy) and generated flows are damaged by every single storage fault and by seeded multi-faults, then consumed by MigrateToLatest, MigrateToVersion (each version), Clone, ReadFlow, the lazy Flows().Get of a SessionAssets over the simulated store, Inspect/marshal/ChangeLanguage, and NewSession + reload + resumes on whatever was accepted. Oracle: an error, or a flow on which a session runs - never a panic or hang. The single-fault space of each corpus definition is enumerated completely.",
+  "Migration equivalence/idempotence of valid old definitions (the other clauses of C16) is only monitored on the corpus (second migration is a no-op, UUID kept, read-marshal-read fixpoint), not claimed: it is a pure function of the definition. Callers pass migrations.DefaultConfig as every caller in the repository does.",
+  "DESIGN.md §5 C16")
+
 NOT_BUILT = {
 }
 
